@@ -1,6 +1,6 @@
 (* Invariant passes over the receive-transaction model (C19, C20, C18, C17). *)
 From CFDP Require Import Base.Prelude Model.Segments Model.Timer Model.TxTypes Model.Recv
-  Proofs.SegmentsP Proofs.Tac Proofs.RecvP.
+  Proofs.SegmentsP Proofs.TimerP Proofs.Tac Proofs.RecvP.
 
 (* recursive solver for goals [J state-expression] *)
 Ltac solve_st J ext calls :=
@@ -306,6 +306,324 @@ Proof.
       repeat destr_inner; cbn; auto 6.
   - unfold abandon. cbn. auto.
   - unfold resume. repeat destr_inner; cbn; auto.
+Qed.
+
+
+(* ================= C18: unacknowledged mode is one-way ================= *)
+(* nothing but the send arm ever emits a PDU *)
+Definition no_pdu (o : out) : Prop := match o with OPdu _ => False | OInd _ => True end.
+Definition JN (s : rstate) : Prop := Forall no_pdu (r_out s).
+Lemma JN_ext (s s' : rstate) : JN s -> r_out s' = r_out s -> JN s'.
+Proof. unfold JN. intros H E. rewrite E. exact H. Qed.
+Lemma JN_ind i (s : rstate) : JN s -> JN (emit_ind i s).
+Proof. unfold JN. cbn. intros H. constructor; [exact I|assumption]. Qed.
+Lemma JN_of_JQ (s : rstate) : JQ s -> JN s.
+Proof.
+  unfold JQ, JN. intros H. eapply Forall_impl; [|exact H]. intros [p|i]; cbn; auto.
+Qed.
+Lemma JN_cancel_ now s : JN s -> JN (cancel_ now s).
+Proof.
+  intros H. unfold cancel_. apply JN_ind.
+  destruct (cfg_mode _); [|destruct (closure _)]; (eapply JN_ext; [exact H|reflexivity]).
+Qed.
+Lemma JN_handle_fault now c s : JN s -> JN (fst (handle_fault now c s)).
+Proof.
+  intros H. unfold handle_fault.
+  assert (H1 : JN (emit_ind (IFault c (r_recvd (set_r_cond c s))) (set_r_cond c s))).
+  { apply JN_ind. eapply JN_ext; [exact H|reflexivity]. }
+  destruct (handler _ c); cbn [fst]; [apply JN_cancel_ | | | ]; try exact H1.
+  - unfold suspend. apply JN_ind. eapply JN_ext; [exact H1|reflexivity].
+  - unfold abandon. eapply JN_ext; [apply JN_ind; eapply JN_ext; [exact H1|reflexivity]|reflexivity].
+Qed.
+Ltac jn_calls _ :=
+  lazymatch goal with
+  | |- JN (cancel_ _ _) => apply JN_cancel_
+  | |- JN (fst (handle_fault _ _ _)) => apply JN_handle_fault
+  | |- JN (emit_ind _ _) => apply JN_ind
+  | |- JN (abandon _ _) => unfold abandon
+  | |- JN (suspend _ _) => unfold suspend
+  end.
+Ltac jn := solve_st JN JN_ext jn_calls.
+Ltac pass_n := repeat (first [destr_pair_keep | destr_inner]; cbn [fst snd]); try jn.
+
+Lemma JN_handle_timeout now s : JN s -> JN (handle_timeout now s).
+Proof.
+  intros H. unfold handle_timeout.
+  assert (H1 : JN (ht_delayed now s)).
+  { unfold ht_delayed. destruct (expire_delayed now (r_delayed s)). pass_n. }
+  assert (H2 : JN (fst (ht_inactivity now (ht_delayed now s)))).
+  { remember (ht_delayed now s) as s1 eqn:E; clear E. unfold ht_inactivity, c_limit_reached. pass_n. }
+  destruct (ht_inactivity now (ht_delayed now s)) as [s2 go]. cbn [fst] in H2.
+  destruct go; [|exact H2].
+  unfold ht_phase, c_limit_reached, c_timeout_occurred, set_fin_flag. pass_n.
+Qed.
+
+(* the unacknowledged receiver's bookkeeping: nothing is ever queued for transmission except a
+   Finished PDU, and that only when the metadata requested closure *)
+Definition nak_idle (c : counter) : Prop := c_paused c = true /\ c_occurred c = false.
+Definition U18 (s : rstate) : Prop :=
+  cfg_mode (r_cfg s) = Unacked /\ r_ack s = None /\ r_naks s = [] /\ r_prompt s = None /\
+  nak_idle (t_nak (r_timer s)) /\ (is_some (r_fin s) = true -> closure s = true) /\ r_delayed s = [].
+
+Lemma U18_ext (s s' : rstate) : U18 s -> r_cfg s' = r_cfg s -> r_ack s' = r_ack s -> r_naks s' = r_naks s ->
+  r_prompt s' = r_prompt s -> t_nak (r_timer s') = t_nak (r_timer s) -> r_fin s' = r_fin s ->
+  r_meta s' = r_meta s -> r_delayed s' = r_delayed s -> U18 s'.
+Proof.
+  unfold U18, closure. intros (A & B & C & D & E & F & G) E1 E2 E3 E4 E5 E6 E7 E8.
+  rewrite E1, E2, E3, E4, E5, E6, E7, E8. splits; auto.
+Qed.
+(* pausing the idle NAK timer keeps it idle *)
+Lemma nak_idle_pause now c : nak_idle c -> nak_idle (c_pause now c).
+Proof.
+  intros (A & B). unfold nak_idle, c_pause. rewrite (c_update_paused now c A). cbn. auto.
+Qed.
+Lemma U18_pause_nak now (s s' : rstate) : U18 s -> r_cfg s' = r_cfg s -> r_ack s' = r_ack s -> r_naks s' = r_naks s ->
+  r_prompt s' = r_prompt s -> t_nak (r_timer s') = c_pause now (t_nak (r_timer s)) -> r_fin s' = r_fin s ->
+  r_meta s' = r_meta s -> r_delayed s' = r_delayed s -> U18 s'.
+Proof.
+  unfold U18, closure. intros (A & B & C & D & E & F & G) E1 E2 E3 E4 E5 E6 E7 E8.
+  rewrite E1, E2, E3, E4, E5, E6, E7, E8. splits; auto. apply nak_idle_pause. exact E.
+Qed.
+
+Lemma U18_shutdown now s : U18 s -> U18 (shutdown now s).
+Proof. intros H. eapply (U18_pause_nak now s); [exact H | reflexivity ..]. Qed.
+Lemma U18_abandon now s : U18 s -> U18 (abandon now s).
+Proof. intros H. unfold abandon. apply U18_shutdown. eapply (U18_ext s); [exact H | reflexivity ..]. Qed.
+Lemma U18_suspend now s : U18 s -> U18 (suspend now s).
+Proof. intros H. unfold suspend. eapply (U18_pause_nak now s); [exact H | reflexivity ..]. Qed.
+Lemma U18_cancel_ now s : U18 s -> U18 (cancel_ now s).
+Proof.
+  intros H. unfold cancel_. destruct H as (A & B & C & D & E & F & G). cbn [r_cfg upd_nak set_r_timer set_r_phase].
+  rewrite A. destruct (closure (upd_nak (c_pause now) (set_r_phase RCancelled s))) eqn:Ec.
+  - unfold U18, closure in *. cbn in *. splits; auto. repeat apply nak_idle_pause. exact E.
+  - unfold U18, closure in *. cbn in *. splits; auto. repeat apply nak_idle_pause. exact E.
+Qed.
+Lemma U18_handle_fault now c s : U18 s -> U18 (fst (handle_fault now c s)).
+Proof.
+  intros H. unfold handle_fault.
+  assert (H1 : U18 (emit_ind (IFault c (r_recvd (set_r_cond c s))) (set_r_cond c s))).
+  { eapply (U18_ext s); [exact H | reflexivity ..]. }
+  destruct (handler _ c); cbn [fst];
+    [apply U18_cancel_ | apply U18_suspend | | apply U18_abandon]; exact H1.
+Qed.
+
+
+Ltac u18_leaf s0 := eapply (U18_ext s0); [ | reflexivity ..].
+
+Lemma U18_finalize now s : U18 s -> U18 (finalize_receive now s).
+Proof.
+  intros H. unfold Recv.finalize_receive.
+  set (s0 := set_r_dc _ s). assert (H0 : U18 s0) by (unfold s0; u18_leaf s; exact H). clearbody s0. clear H.
+  assert (H1 : U18 (fst (if is_file_transfer s0
+                        then let '(s1, go) := fr_verify FS cksum now s0 in
+                             if go then (fr_store FS fs_write_file s1, true) else (s1, false)
+                        else (set_r_fstat FUnreported s0, true)))).
+  { destruct (is_file_transfer s0); cbn [fst]; [|u18_leaf s0; exact H0].
+    assert (Hv : U18 (fst (fr_verify FS cksum now s0))).
+    { unfold fr_verify. destr_inner; cbn [fst]; [u18_leaf s0; exact H0|].
+      apply U18_handle_fault. u18_leaf s0. exact H0. }
+    destruct (fr_verify FS cksum now s0) as [s1 go]. cbn [fst] in Hv.
+    destruct go; cbn [fst]; [|exact Hv]. unfold fr_store. destr_inner; u18_leaf s1; exact Hv. }
+  destruct (if is_file_transfer s0 then _ else _) as [s2 go2]. cbn [fst] in H1.
+  destruct go2; [|exact H1].
+  assert (H2 : U18 (fst (fr_rejection now s2))).
+  { unfold fr_rejection. destruct (r_fstat s2); cbn [fst]; try exact H1. apply U18_handle_fault. exact H1. }
+  destruct (fr_rejection now s2) as [s3 go3]. cbn [fst] in H2.
+  destruct go3; [|exact H2]. unfold fr_requests. destruct (run_requests _ _ _ _ _ _ _). u18_leaf s3. exact H2.
+Qed.
+
+Lemma U18_process_pdu now p s : U18 s -> U18 (fst (process_pdu now p s)).
+Proof.
+  intros H. unfold Recv.process_pdu.
+  set (s0 := if suspended s then s else upd_inact (c_reset now) s).
+  assert (H0 : U18 s0) by (unfold s0; destruct (suspended s); [|u18_leaf s]; exact H). clearbody s0. clear H.
+  destruct H0 as (A & H0'). rewrite A. assert (H0 : U18 s0) by (split; assumption). clear H0'.
+  destruct p; cbn [fst]; try exact H0.
+  - (* file data *)
+    unfold pdu_filedata_unacked, store_file_data. repeat (destr_inner; cbn [fst snd]); try exact H0;
+      u18_leaf s0; exact H0.
+  - (* EOF *)
+    unfold pdu_eof_unacked. destr_inner; [exact H0|]. destr_inner.
+    + match goal with |- context [finalize_receive now ?x] =>
+        assert (H1 : U18 (finalize_receive now x)) end.
+      { apply U18_finalize. eapply (U18_ext (check_file_size now (eof_size e) _)); [ | reflexivity ..].
+        unfold check_file_size. destr_inner; [apply U18_handle_fault|]; u18_leaf s0; exact H0. }
+      match goal with |- context [finalize_receive now ?x] =>
+        remember (finalize_receive now x) as s1 eqn:E1; clear E1 end.
+      destruct (closure s1) eqn:Ec; [|apply U18_shutdown; exact H1].
+      destruct H1 as (B1 & B2 & B3 & B4 & B5 & B6 & B7).
+      unfold U18, closure in *. cbn. splits; auto.
+    + apply U18_cancel_. u18_leaf s0. exact H0.
+  - (* ACK *)
+    unfold pdu_ack_unacked. repeat (destr_inner; cbn [fst snd]); try exact H0. apply U18_shutdown. exact H0.
+  - (* Metadata: the fin clause refers to closure, which reads the metadata *)
+    unfold pdu_metadata_unacked, set_metadata. destruct (is_some (r_meta s0)) eqn:Em; [exact H0|].
+    destruct H0 as (B1 & B2 & B3 & B4 & B5 & B6 & B7).
+    unfold U18, closure in *. cbn. splits; auto. intros Hf. specialize (B6 Hf).
+    destruct (r_meta s0); [discriminate|discriminate].
+Qed.
+
+(* in unacknowledged mode the send arm can only emit a Finished PDU, and only with closure *)
+Definition only_finished (o : out) : Prop :=
+  match o with
+  | OPdu p => match o_payload p with PFinished _ => True | _ => False end
+  | OInd _ => True
+  end.
+
+Lemma send_finished_spec now (s : rstate) f : r_fin s = Some (f, true) ->
+  send_finished resp_len req_len now s =
+  set_r_fin (Some (f, false)) (emit_pdu resp_len req_len (PFinished f) (upd_ack (c_restart now) s)).
+Proof.
+  intros Ef. unfold send_finished.
+  change (r_fin (upd_ack (c_restart now) s)) with (r_fin s). rewrite Ef.
+  unfold set_fin_flag.
+  change (r_fin (emit_pdu resp_len req_len (PFinished f) (upd_ack (c_restart now) s))) with (r_fin s).
+  rewrite Ef. reflexivity.
+Qed.
+Lemma send_finished_noop now (s : rstate) : fin_flag s = false ->
+  send_finished resp_len req_len now s = upd_ack (c_restart now) s.
+Proof.
+  unfold fin_flag, send_finished. change (r_fin (upd_ack (c_restart now) s)) with (r_fin s).
+  destruct (r_fin s) as [[f [|]]|]; intros E; try discriminate; reflexivity.
+Qed.
+
+Lemma U18_send_pdu now s : U18 s -> Forall only_finished (r_out s) ->
+  U18 (send_pdu resp_len req_len now s) /\ Forall only_finished (r_out (send_pdu resp_len req_len now s)) /\
+  (r_out (send_pdu resp_len req_len now s) <> r_out s -> closure s = true).
+Proof.
+  intros H Ho. destruct H as (A & B & C & D & E & F & G). assert (H : U18 s) by (unfold U18; splits; auto).
+  unfold Recv.send_pdu. rewrite D, B, C. cbn [is_some is_nil negb].
+  assert (Hfin : fin_flag s = true ->
+    U18 (send_finished resp_len req_len now s) /\
+    Forall only_finished (r_out (send_finished resp_len req_len now s)) /\
+    (r_out (send_finished resp_len req_len now s) <> r_out s -> closure s = true)).
+  { unfold fin_flag. destruct (r_fin s) as [[f [|]]|] eqn:Ef; intros Hf; try discriminate.
+    rewrite (send_finished_spec now s f Ef). splits.
+    - unfold U18, closure in *. cbn. splits; auto.
+    - cbn. constructor; [exact I|exact Ho].
+    - intros _. apply F. reflexivity. }
+  destruct (r_phase s); try (splits; [exact H | exact Ho | congruence]);
+    (destruct (fin_flag s) eqn:Eff; [apply Hfin; reflexivity | splits; [exact H | exact Ho | congruence]]).
+Qed.
+
+Ltac u18_head :=
+  lazymatch goal with
+  | |- U18 (abandon _ _) => apply U18_abandon
+  | |- U18 (fst (handle_fault _ _ _)) => apply U18_handle_fault
+  | |- U18 (shutdown _ _) => apply U18_shutdown
+  | |- U18 (cancel_ _ _) => apply U18_cancel_
+  | |- _ => idtac
+  end.
+
+Lemma U18_set_fin_flag b s : U18 s -> U18 (set_fin_flag b s).
+Proof.
+  intros H. unfold set_fin_flag. destruct (r_fin s) as [[f b0]|] eqn:Ef; [|exact H].
+  destruct H as (A & B & C & D & E & F & G). unfold U18, closure in *. cbn. rewrite Ef in F. splits; auto.
+Qed.
+
+Lemma U18_handle_timeout now s : U18 s -> U18 (handle_timeout now s).
+Proof.
+  intros H. unfold handle_timeout.
+  assert (H1 : U18 (ht_delayed now s)).
+  { unfold ht_delayed. destruct H as (A & B & C & D & E & F & G). rewrite G. cbn.
+    unfold U18, closure. cbn. splits; auto. }
+  assert (H2 : U18 (fst (ht_inactivity now (ht_delayed now s)))).
+  { remember (ht_delayed now s) as s1 eqn:E1; clear E1. unfold ht_inactivity, c_limit_reached.
+    repeat (destr_inner; cbn [fst snd]); u18_head; try (eapply (U18_ext s1); [exact H1 | reflexivity ..]). }
+  destruct (ht_inactivity now (ht_delayed now s)) as [s2 go]. cbn [fst] in H2.
+  destruct go; [|exact H2].
+  unfold ht_phase. destruct (r_phase s2).
+  - (* the NAK timer never runs in unacknowledged mode *)
+    destruct (is_immediate (r_nakproc s2) || eof_received s2); [|exact H2].
+    destruct H2 as (A & B & C & D & (E1 & E2) & F & G). unfold c_timeout_occurred.
+    rewrite (c_update_paused now _ E1). rewrite E2. cbn [fst snd].
+    unfold U18, closure, nak_idle. cbn. splits; auto.
+  - unfold c_limit_reached. repeat (destr_inner; cbn [fst snd]); u18_head;
+      try first [ eapply (U18_ext s2); [exact H2 | reflexivity ..]
+                | match goal with |- U18 (upd_ack _ (set_fin_flag ?b ?x)) =>
+                    eapply (U18_ext (set_fin_flag b x));
+                    [apply U18_set_fin_flag; eapply (U18_ext s2); [exact H2 | reflexivity ..] | reflexivity ..] end ].
+  - unfold c_limit_reached. repeat (destr_inner; cbn [fst snd]); u18_head;
+      try first [ eapply (U18_ext s2); [exact H2 | reflexivity ..]
+                | match goal with |- U18 (upd_ack _ (set_fin_flag ?b ?x)) =>
+                    eapply (U18_ext (set_fin_flag b x));
+                    [apply U18_set_fin_flag; eapply (U18_ext s2); [exact H2 | reflexivity ..] | reflexivity ..] end ].
+Qed.
+
+Lemma U18_resume now s : U18 s -> U18 (resume now s).
+Proof.
+  intros H. unfold resume. destruct H as (A & H'). assert (H : U18 s) by (split; assumption).
+  repeat (destr_inner; cbn [fst snd]);
+    try (eapply (U18_ext s); [exact H | reflexivity ..]).
+  all: exfalso; first [ match goal with E : cfg_mode _ = Acked |- _ => cbn in E; congruence end
+                      | match goal with E : false && _ = true |- _ => discriminate E end ].
+Qed.
+
+(* C18, receiver: in unacknowledged mode, whatever the operation, the only PDU the transaction
+   can emit is a Finished PDU, and only if the received metadata requested closure *)
+Theorem U18_rstep now o s : U18 s ->
+  let s' := fst (rstep now o s) in
+  U18 s' /\ Forall only_finished (r_out s') /\
+  (Exists (fun x => ~ no_pdu x) (r_out s') -> closure s = true).
+Proof.
+  intros H. cbn zeta. unfold Recv.rstep.
+  assert (H0 : U18 (set_r_out [] s)) by (eapply (U18_ext s); [exact H | reflexivity ..]).
+  assert (Hn0 : JN (set_r_out [] s)) by (unfold JN; cbn; constructor).
+  assert (Hjn : forall s' : rstate, JN s' ->
+            Forall only_finished (r_out s') /\ (Exists (fun x => ~ no_pdu x) (r_out s') -> closure s = true)).
+  { intros s' Hs'. split.
+    - eapply Forall_impl; [|exact Hs']. intros [p|i]; cbn; tauto.
+    - intros Hex. exfalso. apply Exists_exists in Hex as (x & Hin & Hx). unfold JN in Hs'.
+      rewrite Forall_forall in Hs'. apply Hx. apply Hs'. exact Hin. }
+  destruct o; cbn [fst].
+  - split; [apply U18_process_pdu; exact H0|]. apply Hjn. apply JN_of_JQ. apply JQ_process_pdu.
+    unfold JQ. cbn. constructor.
+  - destruct (has_pdu_to_send _).
+    + destruct (U18_send_pdu now (set_r_out [] s) H0) as (A & B & C); [cbn; constructor|].
+      splits; auto. intros Hex. apply C. cbn. intros E. rewrite E in Hex. inversion Hex.
+    + split; [exact H0|]. apply Hjn. exact Hn0.
+  - destruct (until_timeout now _) as [[|?]|]; try (split; [exact H0|apply Hjn; exact Hn0]).
+    split; [|apply Hjn; apply JN_handle_timeout; exact Hn0].
+    apply U18_handle_timeout. exact H0.
+  - split; [|apply Hjn; unfold cancel; apply JN_cancel_; eapply JN_ext; [exact Hn0|reflexivity]].
+    unfold cancel. apply U18_cancel_. eapply (U18_ext (set_r_out [] s)); [exact H0 | reflexivity ..].
+  - split; [apply U18_suspend; exact H0|]. apply Hjn. unfold suspend. apply JN_ind. eapply JN_ext; [exact Hn0|reflexivity].
+  - split; [apply U18_resume; exact H0|]. apply Hjn. unfold resume.
+    repeat (destr_inner; cbn [fst snd]); jn.
+  - split; [unfold send_report; eapply (U18_ext (set_r_out [] s)); [exact H0 | reflexivity ..]|].
+    apply Hjn. unfold send_report. apply JN_ind. exact Hn0.
+  - split; [apply U18_shutdown; exact H0|]. apply Hjn. eapply JN_ext; [exact Hn0|reflexivity].
+Qed.
+
+
+(* the delivery code a finalisation reports: Complete exactly when the metadata and (for a
+   file transfer) every byte of [0, file size) have been received *)
+Lemma dc_handle_fault now c (s : rstate) : r_dc (fst (handle_fault now c s)) = r_dc s.
+Proof.
+  unfold handle_fault. destruct (handler _ c); cbn [fst]; try reflexivity.
+  unfold cancel_. destruct (cfg_mode _); [|destruct (closure _)]; reflexivity.
+Qed.
+Theorem finalize_dc now (s : rstate) :
+  r_dc (finalize_receive now s) = if delivery_complete s then DComplete else DIncomplete.
+Proof.
+  unfold Recv.finalize_receive.
+  set (v := if delivery_complete s then DComplete else DIncomplete).
+  set (s0 := set_r_dc v s). assert (H0 : r_dc s0 = v) by reflexivity. clearbody s0.
+  assert (H1 : r_dc (fst (if is_file_transfer s0
+                        then let '(s1, go) := fr_verify FS cksum now s0 in
+                             if go then (fr_store FS fs_write_file s1, true) else (s1, false)
+                        else (set_r_fstat FUnreported s0, true))) = v).
+  { destruct (is_file_transfer s0); cbn [fst]; [|exact H0].
+    assert (Hv : r_dc (fst (fr_verify FS cksum now s0)) = v).
+    { unfold fr_verify. destr_inner; cbn [fst]; [exact H0|]. rewrite dc_handle_fault. exact H0. }
+    destruct (fr_verify FS cksum now s0) as [s1 go]. cbn [fst] in Hv.
+    destruct go; cbn [fst]; [|exact Hv]. unfold fr_store. destr_inner; exact Hv. }
+  destruct (if is_file_transfer s0 then _ else _) as [s2 go2]. cbn [fst] in H1.
+  destruct go2; [|exact H1].
+  assert (H2 : r_dc (fst (fr_rejection now s2)) = v).
+  { unfold fr_rejection. destruct (r_fstat s2); cbn [fst]; try exact H1. rewrite dc_handle_fault. exact H1. }
+  destruct (fr_rejection now s2) as [s3 go3]. cbn [fst] in H2.
+  destruct go3; [|exact H2]. unfold fr_requests. destruct (run_requests _ _ _ _ _ _ _). exact H2.
 Qed.
 
 End RecvInv.
